@@ -7,6 +7,7 @@ enum { K_OK, K_OK_ACCT, K_OK_EMPTY, K_NO, K_AGAIN, K_MORE, K_JUNK, K_NUM };
 #endif
 static char arg1[80], arg2[80], arg3[80], tagbuf[24];
 static struct snap snapA, snapB;
+static enum iauth_xquery_type pre_type[NSVC + 1];
 static unsigned pre_refs[NSVC + 1], pre_unlinked[NSVC + 1], pre_bad[NSVC + 1], pre_good[NSVC + 1], pre_good_na[NSVC + 1];
 static char pre_account[ACCOUNTLEN + 1], pre_class[CLASSLEN + 1];
 
@@ -58,7 +59,7 @@ void harness(void)
     take_snap(&snapB, 1);
 #endif
     for (k = 0; k < NSVC; k++)
-        if (SV[k]) { pre_refs[k] = SV[k]->refs; pre_unlinked[k] = SV[k]->unlinked; pre_bad[k] = SV[k]->bad;
+        if (SV[k]) { pre_type[k] = SV[k]->type; pre_refs[k] = SV[k]->refs; pre_unlinked[k] = SV[k]->unlinked; pre_bad[k] = SV[k]->bad;
                      pre_good[k] = SV[k]->good_acct; pre_good_na[k] = SV[k]->good_no_acct; }
     memcpy(pre_account, R[0]->account, sizeof(pre_account));
     memcpy(pre_class, R[0]->class, sizeof(pre_class));
@@ -110,31 +111,34 @@ void harness(void)
 #elif defined(EV_P)
     {
         /* password text: symbolic bytes of a concrete length */
-        unsigned i, pos = 0, set = 0, only = g.hidden_only, host = g.hidden_host;
-        int in_modes = 1;
+        unsigned i, set = 0, only = g.hidden_only, host = g.hidden_host;
+        int st = 0;   /* 0 modes, 1 spaces after modes, 2 account, 3 after the account's space, 9 malformed */
         sym_str(arg1, LPW + 1, LPW);
         is_pw_event = 1;
         g.got |= FLAG(IAUTH_GOT_PASSWORD);
         if (g.more != 0 && g.has_pw) {
             /* answer to a challenge: forwarded to the challengers, nothing parsed */
         } else if (arg1[0] == '+' || arg1[0] == '-') {
-            /* reference reading of "<modes> <account> <password>" */
-            for (i = 0; arg1[i] != '\0' && arg1[i] != ' '; i++) {
-                if (arg1[i] == '+') set = 1;
-                else if (arg1[i] == '-') set = 0;
-                else if (arg1[i] == 'x') host = set;
-                else if (arg1[i] == '!') only = set;
+            /* reference reading of "<modes> <account> <password>": one pass, bounded by the length */
+            for (i = 0; i <= LPW; i++) {
+                char c = arg1[i];
+                if (st == 0) {
+                    if (c == '\0') st = 9;
+                    else if (c == ' ') st = 1;
+                    else if (c == '+') set = 1;
+                    else if (c == '-') set = 0;
+                    else if (c == 'x') host = set;
+                    else if (c == '!') only = set;
+                } else if (st == 1) {
+                    if (c == '\0') st = 9;
+                    else if (c != ' ') st = 2;
+                } else if (st == 2) {
+                    if (c == '\0') st = 9;
+                    else if (c == ' ') st = 3;
+                }
             }
-            if (arg1[i] == ' ') {
-                while (arg1[i] == ' ') i++;
-                pos = i;
-                /* an account, one space, and something after it */
-                for (; arg1[i] != '\0' && arg1[i] != ' '; i++) {}
-                if (arg1[i] == ' ' && i > pos)
-                    pw_shape_ok = 1;
-            }
-            (void)in_modes;
-            if (pw_shape_ok) {
+            if (st == 3) {
+                pw_shape_ok = 1;
                 g.hidden_only = (int)only;
                 g.hidden_host = (int)host;
                 g.has_pw = 1;
@@ -168,13 +172,17 @@ void harness(void)
         default: arg1[0] = t0; arg1[1] = t1; arg1[2] = t2; arg1[3] = '\0';
                  VP_ASSUME(!(t0 == 'O' && t1 == 'K' && (t2 == 0 || t2 == ' '))); break;
         }
+#if NREQ > 1
+        /* a reply addressed to the bystander is this same event with the roles swapped */
+        VP_ASSUME(!((int)tid == G[1].id && tser == G[1].serial));
+#endif
         applies = tagbuf[n - 1] == '_' && (int)tid == a_id && tser == a_serial && ks < NSVC && (g.awaited & (1u << ks));
 #ifdef EV_x
         av[0] = "x";
         parse_x_unlinked(4, av);
         if (applies) {
             g.awaited &= ~(1u << ks);
-            if (SV[ks]->type != DRONECHECK) relay_cmd = 'C';
+            if (pre_type[ks] != DRONECHECK) relay_cmd = 'C';
         } else
             expect_noop = 1;
 #else
@@ -182,7 +190,7 @@ void harness(void)
         if (!applies || kind == K_JUNK)
             expect_noop = 1;
         else {
-            enum iauth_xquery_type ty = SV[ks]->type;
+            enum iauth_xquery_type ty = pre_type[ks];
             switch (kind) {
             case K_OK:
                 g.awaited &= ~(1u << ks);
@@ -220,7 +228,11 @@ void harness(void)
     }
 #elif defined(EV_TIMER)
     VP_ASSUME(g.has_timer && !g.timed_out);
-    vp_fire_timer(a_timer);
+    /* fire the one-shot timer as libevent would: only an armed, unfreed event; its callback
+     * and argument are what evtimer_new() was given (inv() has checked both) */
+    VP_ASSERT(a_timer->armed && !vp_event_freed[0] && a_timer->cb == iauth_timeout && a_timer->arg == (void *)R[0], "environment: the timer fired is the request's own, still armed");
+    a_timer->armed = 0;
+    iauth_timeout(-1, EV_TIMEOUT, R[0]);
     g.timed_out = 1;
 #elif defined(EV_D)
     parse_disconnect(R[0]);
@@ -278,7 +290,7 @@ void harness(void)
             G[0].got, G[0].awaited, G[0].sent, G[0].more, G[0].timed_out, G[0].hidden_only, G[0].hidden_host, G[0].has_account, G[0].soft_done, G[0].has_pw, G[0].has_timer,
             snapA.req.holds, snapA.req.soft_holds, snapA.req.flags.bits[0], iauth_flags.bits[0]);
     for (k = 0; k < NSVC; k++)
-        if (SV[k]) fprintf(stderr, "DBG svc%u: type=%d configured=%d refs(pre)=%u\n", k, (int)SV[k]->type, SV[k]->configured, pre_refs[k]);
+        if (SV[k]) fprintf(stderr, "DBG svc%u: type=%d refs(pre)=%u freed=%d\n", k, (int)pre_type[k], pre_refs[k], iauth_xquery_services.vec[k] != SV[k]);
         else fprintf(stderr, "DBG svc%u: absent\n", k);
     fprintf(stderr, "DBG post: got=%#x awaited=%#x sent=%#x more=%#x timed_out=%d only=%d host=%d acct=%d pw=%d complete=%d\n",
             g.got, g.awaited, g.sent, g.more, g.timed_out, g.hidden_only, g.hidden_host, g.has_account, g.has_pw, ghost_complete(&g));
@@ -330,7 +342,9 @@ void harness(void)
         VP_ASSERT(vp_nline == 0, "C04: a stray reply (no awaited service of a current instance) or repeated datum produces no output");
         VP_ASSERT(live(0) && same_snap(&snapA, 0), "C04: such a line changes nothing in the client it seems to name");
         for (k = 0; k < NSVC; k++)
-            if (SV[k])
+            VP_ASSERT(iauth_xquery_services.vec[k] == SV[k], "C04: such a reply releases no service record");
+        for (k = 0; k < NSVC; k++)
+            if (SV[k] && iauth_xquery_services.vec[k] == SV[k])
                 VP_ASSERT(SV[k]->refs == pre_refs[k] && SV[k]->unlinked == pre_unlinked[k] && SV[k]->bad == pre_bad[k]
                           && SV[k]->good_acct == pre_good[k] && SV[k]->good_no_acct == pre_good_na[k],
                           "C04: such a reply changes no service record");
